@@ -36,9 +36,9 @@ func cadenceCase(c *fw.Ctx, r *fw.Rand) {
 	ping := time.Duration(r.Range(1, 2)) * time.Second
 	// the ping is published once per ping interval, for every interval: with a long one
 	// only the first publication can be observed, and its lifetime must span the interval
-	longPing := r.Intn(3) == 0
+	longPing := c.CaseIdx()%4 >= 2
 	if longPing {
-		ping = []time.Duration{20 * time.Second, 45 * time.Second, 10 * time.Minute}[r.Intn(3)]
+		ping = []time.Duration{20 * time.Second, 45 * time.Second, 10 * time.Minute, 3 * time.Hour}[(c.CaseIdx()/4+c.CaseIdx()%2)%4]
 	}
 	errMode := r.Pick("none", "isolated", "double")
 	withErrors := errMode != "none"
